@@ -81,20 +81,26 @@ def Frame (g g' : AGraph P) (ids : List String) (p : Option String) (e : String 
 mutual
 theorem add_built (C : Codecs V P) : ∀ (s : Sliver V) (g : AGraph P) (p : Option String),
     Shaped s → Fresh g (idsOf s) → (idsOf s).Nodup → (∀ q, p = some q → q ∉ idsOf s) →
+    (∀ q, p = some q → (g.node q).length = 1) →
     ∃ g', addSliver C g p s = .ok g' ∧ Built C g' p s ∧ Frame g g' (idsOf s) p (relOf s.kind, idOf s)
-  | .mk k nid f ks, g, p, hs, hf, hnd, hp => by
+  | .mk k nid f ks, g, p, hs, hf, hnd, hp, hpar => by
     simp only [Shaped] at hs
     obtain ⟨id, rfl⟩ := Option.isSome_iff_exists.mp hs.1
     simp only [idsOf, Option.getD_some, List.nodup_cons] at hf hnd hp
     have hfid := hf id (List.mem_cons_self)
     -- the graph after add_node + add_link
+    have hpid : ∀ q, p = some q → q ≠ id := fun q hq e => hp q hq (by rw [e]; exact List.mem_cons_self)
     have hadd : addNode g p id (classOf k) (relOf k) (toProps C (tableOf k) f) =
         .ok (addNodeTo g p id (classOf k) (relOf k) (toProps C (tableOf k) f)) := by
       unfold addNode
       rw [hfid.1]
-      rfl
+      cases p with
+      | none => rfl
+      | some q =>
+        have hq := hpid q rfl
+        have hl := hpar q rfl
+        simp [upd, hq, hl]
     generalize hg1 : addNodeTo g p id (classOf k) (relOf k) (toProps C (tableOf k) f) = g1 at hadd
-    have hpid : ∀ q, p = some q → q ≠ id := fun q hq e => hp q hq (by rw [e]; exact List.mem_cons_self)
     have hg1node : ∀ i, i ≠ id → g1.node i = g.node i := by
       intro i hi; subst hg1; cases p <;> simp [addNodeTo, upd, hi]
     have hg1adj : ∀ i, i ≠ id → p ≠ some i → g1.adj i = g.adj i := by
@@ -122,7 +128,7 @@ theorem add_built (C : Codecs V P) : ∀ (s : Sliver V) (g : AGraph P) (p : Opti
       have hpi : p ≠ some i := fun e => hp i e (List.mem_cons_of_mem _ hi)
       rw [hg1node i hne, hg1adj i hne hpi]
       exact hf i (List.mem_cons_of_mem _ hi)
-    obtain ⟨g', hk, hbk, hframe, hpn, hpa⟩ := addKids_built C ks g1 id k hs.2 hfresh1 hnd.2 hnd.1
+    obtain ⟨g', hk, hbk, hframe, hpn, hpa⟩ := addKids_built C ks g1 id k hs.2 hfresh1 hnd.2 hnd.1 (by rw [hg1id.1]; rfl)
     refine ⟨g', ?_, ?_, ?_, ?_⟩
     · simp only [addSliver, hadd]; exact hk
     · simp only [Built, Option.getD_some]
@@ -140,17 +146,19 @@ theorem add_built (C : Codecs V P) : ∀ (s : Sliver V) (g : AGraph P) (p : Opti
       simp [Sliver.kind, idOf, Sliver.nodeId]
 theorem addKids_built (C : Codecs V P) : ∀ (ks : List (Sliver V)) (g : AGraph P) (pid : String) (pk : Kind),
     ShapedKids pk ks → Fresh g (idsOfKids ks) → (idsOfKids ks).Nodup → pid ∉ idsOfKids ks →
+    (g.node pid).length = 1 →
     ∃ g', addKids C g pid pk ks = .ok g' ∧ BuiltKids C g' pid ks ∧
       (∀ i, i ∉ idsOfKids ks → i ≠ pid → g'.node i = g.node i ∧ g'.adj i = g.adj i) ∧
       g'.node pid = g.node pid ∧ g'.adj pid = g.adj pid ++ ks.map entryOf
-  | [], g, pid, pk, _, _, _, _ => ⟨g, by simp [addKids], by simp [BuiltKids], fun _ _ _ => ⟨rfl, rfl⟩, rfl, by simp⟩
-  | c :: cs, g, pid, pk, hs, hf, hnd, hpid => by
+  | [], g, pid, pk, _, _, _, _, _ => ⟨g, by simp [addKids], by simp [BuiltKids], fun _ _ _ => ⟨rfl, rfl⟩, rfl, by simp⟩
+  | c :: cs, g, pid, pk, hs, hf, hnd, hpid, hlen => by
     simp only [ShapedKids] at hs
     simp only [idsOfKids, List.mem_append, not_or] at hf hnd hpid
     obtain ⟨slot, hslot⟩ := Option.isSome_iff_exists.mp hs.1
     have hnd' := List.nodup_append.mp hnd
     obtain ⟨g1, h1, hb1, hfr1, hfr1p⟩ := add_built C c g (some pid) hs.2.1
       (fun i hi => hf i (List.mem_append_left _ hi)) hnd'.1 (fun q hq => by cases hq; exact hpid.1)
+      (fun q hq => by cases hq; exact hlen)
     have hdisj : ∀ i, i ∈ idsOfKids cs → i ∉ idsOf c := fun i hi hc => hnd'.2.2 i hc i hi rfl
     have hfresh1 : Fresh g1 (idsOfKids cs) := by
       intro i hi
@@ -158,8 +166,8 @@ theorem addKids_built (C : Codecs V P) : ∀ (ks : List (Sliver V)) (g : AGraph 
       have := hfr1 i (hdisj i hi) hpi
       rw [this.1, this.2]
       exact hf i (List.mem_append_right _ hi)
-    obtain ⟨g2, h2, hb2, hfr2, hn2, ha2⟩ := addKids_built C cs g1 pid pk hs.2.2 hfresh1 hnd'.2.1 hpid.2
     have hp1 := hfr1p pid rfl
+    obtain ⟨g2, h2, hb2, hfr2, hn2, ha2⟩ := addKids_built C cs g1 pid pk hs.2.2 hfresh1 hnd'.2.1 hpid.2 (by rw [hp1.1]; exact hlen)
     refine ⟨g2, ?_, ?_, ?_, ?_, ?_⟩
     · simp only [addKids, hslot, h1]; exact h2
     · simp only [BuiltKids]
